@@ -50,6 +50,17 @@ EDGE_TEXTS = [
 ]
 
 
+# large and tiny constants: driven with every rule except distributive factoring (whose
+# factor() helper enumerates divisors up to sqrt(n), minutes for n ~ 1e18)
+BIG_TEXTS = [
+    "9007199254740993 + 2", "123456789012 * 1000003", "2^62 * 4 + x", "(9007199254740992 + 1) - 9007199254740992", "1000000000000000000000 * x + 1",
+    "3 * (1000000007 * x)", "-(4294967296 * 4294967296)", "10^15 + 10^15 + x", "(99999999999x * 99999999999) + 1", "99999999999 * (99999999999 * x)",
+    "x - -18446744073709551616", "x + -9223372036854775808", "18446744073709551617 / x", "x * (2^64 + y)", "18446744073709551616x * 3x^2",
+    "0.0000001 + 0.0000002", "0.00002 * x * 0.5", "1 / 80000 + x", "x / 0.0000001", "123456789.123456789 - x", "2^-20 + x", "5^-9 * 5^9", "7 / 3 + 2 / 3",
+    "0.1 + 0.2 + 0.3 + x", "1000000 * 0.000001", "33 * 0.01 - x", "(1 / 3) * 3 = x", "x = 1 / 1000000",
+]
+
+
 def required_apply_arms(minimum=3, rules=None):
     req = {}
     for label, tags in ARMS.items():
@@ -94,6 +105,8 @@ def start_texts(cfg, rng, n_random, equations=0.25):
         yield "arm-text", s, []
     for s in EDGE_TEXTS:
         yield "edge-text", s, []
+    for s in BIG_TEXTS:
+        yield "big-text", s, []
     for i, s in enumerate(corp):
         if cfg.mine(i):
             yield "corpus", s, []
@@ -107,12 +120,19 @@ def start_texts(cfg, rng, n_random, equations=0.25):
             yield "random", WE.random_expr(rng), []
 
 
-def parse_start(text):
+def parse_start(text, allow_big=False):
     try:
         root = D.parse(text)
     except Exception:
         return None
     sh = S.shadow(root)
-    if D.too_big(sh) or S.has_nonfinite(sh):
+    if (D.too_big(sh) and not allow_big) or S.has_nonfinite(sh):
         return None
     return root
+
+
+def rules_for(src, rules):
+    """big-text starts are driven without the two factoring instances"""
+    if src == "big-text":
+        return [(l, r) for l, r in rules if not l.startswith("DF")]
+    return rules
